@@ -27,16 +27,19 @@ Theorem C12_loader_registered :
 Proof. split; vm_compute; reflexivity. Qed.
 Print Assumptions C12_loader_registered.
 
-(* The full statement (false in general: C12_members_exact_refuted below). *)
+(* The full statement.  Its former refutation (finding C12-F1: two dict keys with one JSON spelling left the first
+   value's member unreferenced) is gone with the repair of D08: such a dict is refused (C12_colliding_keys_refused
+   below).  What keeps the theorem below "partial" is the rank-0 object array only (not covered by the induction). *)
 Definition C12_members_exact_full_statement : Prop :=
   forall D base v a, dumps_model D base v = Ok a ->
     forall n, In n (map fst (a_members a)) <-> In n (file_refs (a_schema a)).
 
 (* Every member a node refers to exists and every member (other than schema.json) is referred to by some node --
-   for every value none of whose dicts has two dumped keys with the same JSON spelling or a key json cannot write
-   (no_collisions, decidable) and without rank-0 object arrays.  By induction on the value, all kinds. *)
+   for EVERY value that dumps and has no rank-0 object array; no hypothesis on dict keys any more: two kept keys with
+   the same JSON spelling make dict_get_state raise, a key json cannot write makes json.dumps(state) raise in _save
+   (both: dumps_model <> Ok).  By induction on the value, all kinds. *)
 Theorem C12_members_exact_partial :
-  forall D base v a, dumps_model D base v = Ok a -> no_collisions v = true -> no_rank0 v = true ->
+  forall D base v a, dumps_model D base v = Ok a -> no_rank0 v = true ->
     forall n, In n (map fst (a_members a)) <-> In n (file_refs (a_schema a)).
 Proof. exact dumps_members_exact. Qed.
 Print Assumptions C12_members_exact_partial.
@@ -57,14 +60,13 @@ Definition members_exact (a : archive) : bool :=
   forallb (fun n => mem n (file_refs (a_schema a))) (map fst (a_members a))
   && forallb (fun n => mem n (map fst (a_members a))) (file_refs (a_schema a)).
 
-(* finding C12-F1: with two keys of one JSON spelling the first value's member stays unreferenced *)
-Theorem C12_members_exact_refuted :
-  match dumps_model (wd Snapshot.current) wbase w_orphan_member with
-  | Ok a => negb (members_exact a)
-  | Raise _ => false
-  end = true.
+(* finding C12-F1, fixed in the repository with D08: {1: b'x', '1': b'y'} wrote two members and kept one reference;
+   now the dump raises ValueError when it meets the second key (before the second member is written), and nothing
+   is delivered to any sink (C12_failing_dump_delivers_nothing) *)
+Theorem C12_colliding_keys_refused :
+  dumps_model (wd Snapshot.current) wbase w_orphan_member = Raise EValue.
 Proof. vm_compute. reflexivity. Qed.
-Print Assumptions C12_members_exact_refuted.
+Print Assumptions C12_colliding_keys_refused.
 
 (* Sink and compression independence.  dump/dumps = the dump model (archive = function of the value and the call's id
    allocator only), then the zip container under the requested method/level, then ONE buffer handed to the sink
@@ -121,7 +123,7 @@ Proof. cbn. repeat split; try reflexivity. eexists; reflexivity. Qed.
 Example C12_nonvacuous :
   match dumps_model (wd Snapshot.current) wbase w_nested with
   | Ok a => schema_wf Snapshot.current (s "0.0") (a_schema a) && no_rank0 w_nested && members_exact a
-            && forallb flat_name (member_names a) && Nat.eqb (length (a_members a)) 5 && no_collisions w_nested
+            && forallb flat_name (member_names a) && Nat.eqb (length (a_members a)) 5
   | Raise _ => false
   end = true.
 Proof. vm_compute. reflexivity. Qed.
